@@ -55,6 +55,13 @@ var propSpecs = map[string]*PropSpec{
 		Explanation: "per-node contracts: a purge that originates on a node fires the broadcast hook exactly once and a purge applied for a peer never does (caches.purge/Purge/PurgeLocal); a broadcast asks every active peer other than this node exactly once (ListActiveMembers is the filter of the member list, BroadcastCacheFlush calls SendCacheFlush once per peer with the cache id and the origin hop count, SendCacheFlush issues at most one request, to that peer); the flush handler discards the named cache and sends nothing (no hook firing, no SendCacheFlush, no request)",
 		TrustedBase: []string{"the cluster table read by ListMembers is the membership (database/sql)", "net/http delivers or loses a request (message delays/drops are outside the contracts)", "the hook OnPurge is BroadcastCacheFlush in cluster mode (cluster.Initialize) and nil otherwise"},
 	},
+	"C28": {
+		Patterns:    []string{"./..."},
+		Level:       "proof",
+		Explanation: "the cache operations (Add, Find, Delete, purge/Purge/PurgeLocal/PurgeAll, SetExpiration, sweepExpired, newCache, Size, Active, notifyEvictions) are under functional contracts over the abstract state cache id -> (key -> (data, expires), lifetime, limit), frames included (other keys and other caches untouched), with representation invariants (entries within the limit, entry maps not shared, the configured lifetime in force) and the lock discipline of the cache table (touched only under cacheLock, written only under the write lock, one critical section per operation, evictions reported after the lock is released)",
+		TrustedBase: []string{"sync.RWMutex gives mutual exclusion: each operation's effect lies in one critical section, so the sequential contracts describe a linearisation (standard argument, not machine-checked); interleavings themselves are not explored", "Go's range over a map visits every key present exactly once (engine's map-range model)", "time.Now is monotone (ghost clock); time.ParseDuration of the default string is the default lifetime", "the eviction listener is read once per operation (watchingEvictions); a listener registered in between is not covered"},
+		Extra:       c28Extra,
+	},
 	"C27": {
 		Patterns: []string{"./..."},
 		Level:    "proof",
